@@ -7,6 +7,8 @@ CONSTANTS Principals = {"A"}
           BoomCodes = {"boom"}
           Strategies = {"S1", "S2"}
           MaxReq = 7
+          TempNames = {}
+          GenPNames = {}
           FilterOnOwner = TRUE
           FixedF8 = FALSE
 INVARIANTS EndedNotRunningShipped
